@@ -34,6 +34,7 @@ fn cfg() -> BoxedStrategy<StoreCfg> {
             dead_bytes,
             small_file,
             sync_always: false,
+            sync_interval_ms: 0,
         })
         .boxed()
 }
